@@ -603,7 +603,9 @@ DIRECT_CTX = [None, None, "", "x", "multi\nline\n", "\n", "tab\there", "Ã©", "æ—
               "$(touch %s)" % CANARY, "\ud800", "ok\udfffx", "\U0010ffff", "\ud7ff\ue000", "x" * 5000]
 
 DIRECT_OUT = [b"v", b" v \n", b"", b"\n", b"\xc3\xa9\n", b"\xff", b"\xc0\x80", b"\xed\xa0\x80", b"\xf4\x90\x80\x80", b"\xe2\x82", b"a\x00b",
-              b"\xc2\x85x\xe2\x80\xa8", b"\xef\xbb\xbfx", b"x\xe3\x80\x80", b"\x1c\x1d\x1e\x1fq", b"q\xc2\xa0", b"\xf0\x9f\x98\x80 ", b"\xe1\x9a\x80z"]
+              b"\xc2\x85x\xe2\x80\xa8", b"\xef\xbb\xbfx", b"x\xe3\x80\x80", b"\x1c\x1d\x1e\x1fq", b"q\xc2\xa0", b"\xf0\x9f\x98\x80 ", b"\xe1\x9a\x80z",
+              # output that LOOKS like a number, a boolean or nothing: it is text all the same
+              b"007", b"42\n", b" 0010 ", b"0", b"-5", b"1e3", b"3.50", b"True", b"None", b"\xd9\xa3", b"0x1F", b"1_000"]
 
 DIRECT_ERR = [b"", b"STDERRLEAK\n", b"\xff\xfe", b"STDERRLEAK \xc3\xa9", b"\xc3"]
 
